@@ -334,7 +334,11 @@ def rand_story(rng, story_id, item_idgen, pool, n_items=None, layout=None, timin
         if layout == 'inter' or (layout == 'mixed' and rng.random() < 0.6):
             kids.append(rand_para(rng, notes + pool, rich))
         if layout == 'mixed' and rng.random() < 0.3:
-            kids.append(rich_blob(rng, 1, pool, rng.choice(['pi', 'break', 'storyItem', 'itemID'])))
+            kids.append(rich_blob(rng, 1, pool, rng.choice(['pi', 'break', 'storyItem', 'itemID', 'storyBody'])))
+            if rng.random() < 0.3:
+                # a story that kept (part of) the roStorySend layout: vendor data, to be left alone
+                kids.append(E('storyBody', None, E('storyItem', None, E('itemID', item_idgen()), E('itemSlug', rng.choice(pool))),
+                              E('p', rng.choice(pool)), attrib={'kept': 'as-sent'}))
     extra = []
     if rich and rng.random() < 0.4:
         extra.append(E('storyNum', str(rng.randint(1, 99))))
@@ -420,7 +424,11 @@ def rand_ro(rng, n_stories=None, meta_layout=None, pool=None, timing='any', ids=
         ed_start = ('2020-01-01T12:30:00' if r < 0.4 else '2020-01-01T12:30:15' if r < 0.5 else
                     '2020-01-01T12:30:15.500000' if r < 0.58 else '2020-01-01T12:30:00+01:00' if r < 0.64 else
                     '2020-01-01T12:30:00Z' if r < 0.7 else '' if r < 0.8 else
-                    loose_time(rng, '2020-01-01', '12:30:05') if r < 0.87 else None)
+                    loose_time(rng, '2020-01-01', '12:30:05') if r < 0.87 else
+                    # seconds before the clock changes in zones with daylight saving (times without a zone are plain
+                    # wall-clock arithmetic, wherever the process runs)
+                    rng.choice(['2021-03-28T00:59:55', '2021-03-28T01:59:57', '2021-10-31T00:59:55', '2021-10-31T01:59:57',
+                                '2021-03-14T01:59:58', '2021-11-07T01:59:58']) if r < 0.93 else None)
     pretty = rng.random() < 0.5 if pretty is None else pretty
     env = {}
     if rich and rng.random() < 0.3:
